@@ -3,8 +3,8 @@ package sim
 // C14 engine: quorum certificates are presented to the real chained-bft code on every entry path
 // (DefaultSaftyRules.CheckProposal obtained through Smr.GetSaftyRules, the smr proposal handler,
 // the smr vote collection, CalVotesThreshold, CheckVote, and - c14_chain.go - xpoa / tdpos
-// CheckMinerMatch on a booted chain) and every acceptance is judged by the independent verifier of
-// c14_model.go.
+// CheckMinerMatch on a booted chain, c14_vc.go - the same across a validator change made on that
+// chain) and every acceptance is judged by the independent verifier of c14_model.go.
 
 import (
 	"bytes"
